@@ -22,10 +22,13 @@ def run(ctx):
             # switches between firewalls, tops repaired in different orders)
             ("tfc", "mem", 500 if quick else 8000, "failures"),
             ("tfc", "db:4", 150 if quick else 2000, "failures"),
-            ("fw", "mem", 400 if quick else 6000, "failures")]
+            ("fw", "mem", 400 if quick else 6000, "failures"),
+            # the firewall fragment model Engine/Fw.v (the one FwSound.v is about) against the same kind of histories
+            ("fw", "mem", 300 if quick else 4000, "fw_failures"),
+            ("tfc", "mem", 300 if quick else 4000, "fw_failures")]
     total, dis_all, dists, real_fail, samples, hist_total = 0, [], {}, [], [], 0
     for k, (mode, cfg, n, fn) in enumerate(runs):
-        d = os.path.join(ctx.rundir, f"{mode}_{cfg.replace(':', '')}")
+        d = os.path.join(ctx.rundir, f"{mode}_{cfg.replace(':', '')}_{fn}")
         st = ec.run_hist(ctx, d, ctx.seed + 101 * k, n, 16, cfg, mode)
         dists[f"{mode}/{cfg}"] = ec.dist(st)
         hist_total += st["histories"]
